@@ -661,6 +661,7 @@ func (g *escGen) regexSource(repo string) ([]rune, int, error) {
 		if err != nil {
 			return nil, 0, fmt.Errorf("untranslatable: %s:0: %v", g.file, err)
 		}
+		normalizeFile(g.fset, f)
 		var ferr error
 		ast.Inspect(f, func(n ast.Node) bool {
 			if ferr != nil {
@@ -750,6 +751,7 @@ func genEscape(repo, out string) error {
 	if err != nil {
 		return fmt.Errorf("untranslatable: %s:0: %v", g.file, err)
 	}
+	normalizeFile(g.fset, f)
 	sub, subLine, err := g.unescape(f)
 	if err != nil {
 		return err
